@@ -292,6 +292,26 @@ def run_reactor(case, want_smarts=False, prune=True):
                 getattr(R, first)
             except StopIteration:
                 pass
+        rec.script_vals = None
+        if case.get("script"):
+            # a SCRIPT of reads on the fresh reactor, every value kept (model: run_reads, the reactor as a state machine)
+            rec.script_vals = []
+            for attr in case["script"]:
+                try:
+                    v = getattr(R, attr)
+                except StopIteration:
+                    rec.script_vals.append([attr, "raise", None])
+                    continue
+                code = SCRIPT_OPS[attr]
+                if code == 0:
+                    v = [copy.deepcopy(v.rc.raw), copy.deepcopy(v.left.raw), copy.deepcopy(v.right.raw)]
+                elif code == 1:
+                    v = [dict(m) for m in v]
+                elif code == 3:
+                    v = [copy.deepcopy(g) for g in v]
+                elif code in (4, 5):
+                    v = list(v)
+                rec.script_vals.append([attr, code, v])
         rec.R = R
         rec.host = R.graph.raw
         rec.rule = R.rule
@@ -372,6 +392,61 @@ def order_tables(rec, maxm, maxr, valid_of):
             tbls.append(row)
         k += len(out)
     return tbls
+
+
+# attribute read -> op code of model/C03_Reactor.v (op_of)
+SCRIPT_OPS = {"rule": 0, "mappings": 1, "_mappings_prop": 1, "mapping_count": 2, "its_list": 3, "its": 3,
+              "smarts_list": 4, "smarts": 4, "smiles_list": 5}
+
+
+def script_obs(rec):
+    """the values of the scripted reads in the shape of model/C03_Reactor.v trval: [0, rc, left, right] | [1, [mappings]] | [2, n] |
+    [3, [result restricted to the atoms of its glued predecessor + number of further atoms]] | [4, [strings as bytes]] | [5] (raised)"""
+    from ..tok import S
+    glued = [g for _, _, _, out in rec.glue_calls for g in out]
+    obs = []
+    for attr, code, v in rec.script_vals:
+        if code == "raise":
+            obs.append([5])
+        elif code == 0:
+            obs.append([0, its_obs(v[0]), mol_obs(v[1]), mol_obs(v[2])])
+        elif code == 1:
+            obs.append([1, [map_obs(m) for m in v]])
+        elif code == 2:
+            obs.append([2, int(v)])
+        elif code == 3:
+            row = []
+            for i, g in enumerate(v):
+                old = set(glued[i].nodes) if i < len(glued) else set()
+                o = its_obs(g, only=old)
+                # ... and the two molecule graphs its_decompose makes of it (what _to_smarts hands to RDKit)
+                from synkit.Graph.ITS.its_decompose import its_decompose
+                sides, extra = [], []
+                for side in its_decompose(g):
+                    ns = [[n, ecode(d.get("element", "*")), 1 if d.get("aromatic", False) else 0, int(d.get("hcount", 0)), int(d.get("charge", 0)), hp_obs(d)]
+                          for n, d in side.nodes(data=True) if n in old]
+                    es = [[min(u, v), max(u, v), half(d["order"])] for u, v, d in side.edges(data=True) if u in old and v in old]
+                    sides.append([S(ns), S(es)])
+                    extra.append(side.number_of_edges() - len(es))
+                row.append(o + [g.number_of_nodes() - len(o[0]["__set__"])] + sides + extra)
+            obs.append([3, row])
+        else:
+            obs.append([4, [list(x.encode()) for x in v]])
+    return obs
+
+
+def side_smiles(its_graphs):
+    """RDKit's half of _to_smarts, per ITS graph: (SMILES of the reactant side, of the product side), None where graph_to_smi
+    gives up -- an oracle input of the model (the string logic on top of it is modelled)"""
+    from synkit.Graph.ITS.its_decompose import its_decompose
+    from synkit.Graph import remove_wildcard_nodes
+    from synkit.IO.chem_converter import graph_to_smi
+    out = []
+    for g in its_graphs:
+        l, r = its_decompose(g)
+        a, b = graph_to_smi(remove_wildcard_nodes(l)), graph_to_smi(remove_wildcard_nodes(r))
+        out.append([None if a is None else list(a.encode()), None if b is None else list(b.encode())])
+    return out
 
 
 def _gsig(g):
